@@ -302,8 +302,10 @@ fn arith_generic<F: Fl>(c: &Case, obs: &mut Obs) -> PResult {
     obs.eval();
     let chunk = (c.chunk.max(1)) as usize;
     let leaves: Vec<Arithmetic<F>> = seq.chunks(chunk).map(|xs| <Arithmetic<F> as StatisticsOps<F>>::from_iter(&xs.to_vec()).unwrap()).collect();
-    let hist = ["left-fold", "right-fold", "balanced-tree", "alternating-fold"][(c.history % 4) as usize];
-    let state: Arithmetic<F> = match c.history % 4 {
+    // round 11: a fifth history, the accumulated state as the *right* operand of `+=` (`fresh += acc; acc = fresh`)
+    let hsel = c.history % 5;
+    let hist = ["left-fold", "right-fold", "balanced-tree", "alternating-fold", "right-fold+="][hsel as usize];
+    let state: Arithmetic<F> = match hsel {
         0 => {
             let mut acc = Arithmetic::<F>::new();
             for (i, l) in leaves.iter().enumerate() {
@@ -329,10 +331,19 @@ fn arith_generic<F: Fl>(c: &Case, obs: &mut Obs) -> PResult {
             }
             level[0]
         }
-        _ => {
+        3 => {
             let mut acc = Arithmetic::<F>::new();
             for (i, l) in leaves.iter().enumerate() {
                 acc = if i % 2 == 0 { acc + *l } else { *l + acc };
+            }
+            acc
+        }
+        _ => {
+            let mut acc = Arithmetic::<F>::new();
+            for l in leaves.iter() {
+                let mut fresh = *l;
+                fresh += acc;
+                acc = fresh;
             }
             acc
         }
@@ -354,7 +365,7 @@ fn arith_generic<F: Fl>(c: &Case, obs: &mut Obs) -> PResult {
     obs.headroom(&format!("arithmetic_merge/{}/{hist}", F::NAME), (e1 / b1).max(e2 / b2), || json!({"pattern": pat, "n": n, "chunk": chunk, "sum_err_u": e1 / (u * sa1), "sumsq_err_u": e2 / (u * s2)}));
     obs.class(&format!("arithmetic_merge/{hist}"));
     if leaves.len() >= 8 {
-        obs.nontrivial(&("arith", c.f32, c.pattern % 6, c.n, c.seed, c.c.0.to_bits(), c.history % 4, c.chunk));
+        obs.nontrivial(&("arith", c.f32, c.pattern % 6, c.n, c.seed, c.c.0.to_bits(), hsel, c.chunk));
     }
     Ok(())
 }
@@ -427,7 +438,7 @@ pub fn run(run: &mut Run) {
     for h in HISTORIES {
         run.require_class(&format!("history/{h}"));
     }
-    for h in ["left-fold", "right-fold", "balanced-tree", "alternating-fold"] {
+    for h in ["left-fold", "right-fold", "balanced-tree", "alternating-fold", "right-fold+="] {
         run.require_class(&format!("arithmetic_merge/{h}"));
     }
     for c in ["f32/constant/n>=1e6", "f32/same-sign/n>=1e6", "f32/tiny-increments/n<1e6", "f64/cancelling-pairs/n<1e4", "merge-with-nonzero-compensation"] {
